@@ -579,8 +579,20 @@ func madeWithLenOf(pk *packagesPackage, stack []ast.Node, cont, S ast.Expr, befo
 	})
 	made, other := false, false
 	// the make may sit under `if len(S) > 0` / `!= 0` (an empty S makes no iteration), nothing else
+	// a make that stands in a block which also encloses the use is unconditional for that use
+	onStack := func(list []ast.Stmt) bool {
+		for _, a := range stack {
+			if blk, ok := a.(*ast.BlockStmt); ok && len(blk.List) > 0 && len(list) > 0 && blk.List[0] == list[0] {
+				return true
+			}
+		}
+		return false
+	}
 	var visit func(list []ast.Stmt, conditional bool)
 	visit = func(list []ast.Stmt, conditional bool) {
+		if conditional && onStack(list) {
+			conditional = false
+		}
 		for _, st := range list {
 			switch x := st.(type) {
 			case *ast.AssignStmt:
